@@ -260,6 +260,32 @@ fn run_path(t: i32, other: i32, word: &[u8], seed: u64, dir: &str, case: &str, r
         let r2 = pairs_of(shapefile::read(&path));
         vec![("Reader::from_path.read", r1), ("shapefile::read(path)", r2)]
     });
+    // a second shapefile with the table structure taken from the first one
+    // (Reader::into_table_info -> Writer::from_path_with_info) must come out identical
+    if word.iter().all(|l| *l == OK || *l == OTHER_TYPE) {
+        let base2 = format!("{}_copy", base);
+        let path2 = format!("{}.shp", base2);
+        let second = panicmon::catch(|| -> Result<Vec<bool>, Error> {
+            let info = Reader::from_path(&path)?.into_table_info();
+            let w = Writer::from_path_with_info(&path2, info)?;
+            Ok(write_history(w, word, t, other, seed))
+        });
+        let rd2 = |ext: &str| std::fs::read(format!("{}.{}", base2, ext)).unwrap_or_default();
+        rep.count("files_rewritten_through_from_path_with_info", 1);
+        match second {
+            Ok(Ok(r2)) => {
+                let same = r2 == out.results && rd2("shp") == out.shp && rd2("shx") == out.shx && crate::e_c10::mask_dbf(rd2("dbf")) == crate::e_c10::mask_dbf(out.dbf.clone());
+                if !same {
+                    rep.violation("pairing:from_path_with_info", case, J::obj(vec![("type", J::s(type_name(t))), ("history", J::s(word_str(word))), ("what", J::s("the shapefile rewritten with the table info of the first differs from it"))]));
+                }
+            }
+            Ok(Err(e)) => rep.violation("pairing:from_path_with_info:error", case, J::s(err_class(&e))),
+            Err(p) => rep.violation("panic:from_path_with_info", case, J::s(p.class())),
+        }
+        for ext in ["shp", "shx", "dbf"] {
+            let _ = std::fs::remove_file(format!("{}.{}", base2, ext));
+        }
+    }
     for ext in ["shp", "shx", "dbf"] {
         let _ = std::fs::remove_file(format!("{}.{}", base, ext));
     }
